@@ -583,7 +583,7 @@ func c36(c *vc.Ctx) {
 		"Phase shebang: file f / f.sh = shebang line + body, alone in a tree; lines generated from the documented grammar `#!` blanks /bin/|/usr/bin/ [env blanks] shell: blanks after `#!` = 0..%d spaces, a tab, space+tab (line lengths 9..46 bytes, on both sides of any fixed probe size); quick: (/bin/, no env) and (/usr/bin/, `env `) x shells %v and non-shells %v x line end \\n x body multi (body bats too for bash and bats), plus /usr/local/bin/, `env -S `, `envbash` neighbours; thorough: /bin/,/usr/bin/ x {no env, `env `, `env  `, `env\\t`} x all eight names x both bodies, and line ends ` -e\\n`, \\r\\n for <=1 blank. Bodies %v tell all five languages apart by status and bytes (verified at start). Judged: `shfmt f` = `shfmt --filename f <f` = `shfmt -ln=<language of the shebang's shell> --filename f <f` (bytes, status); `shfmt -l .` considers the extension-less file iff the grammar finds a shell. "+
 		"Phase hetero: directories a and b with DIFFERENT EditorConfig settings (ordered pairs; quick: %s; thorough: also all ordered pairs of distinct quick flag sets), laid out as sections [a/**] and [b/**] of one root file or as nested a/.editorconfig and b/.editorconfig, passed as explicit files and as directories; trees: {a/tab a/bashism b/tab b/bashism} (both settings-sensitive kinds under both settings in one run), thorough also every ordered pair of kinds (one file in a, one in b) under the quick pairs; every file must come out exactly as when formatted alone under the settings in force for it (-l, -d, -w, -l as in phase tree). "+
 		"Phase single: per (kind, flag set): `shfmt F f` = `shfmt F --filename f <f` (bytes, status) and flags = EditorConfig. "+
-		"Phase tree: all multisets of 1..%d kinds (listed in kind order, file i named f<i><ext>) x all placements in directories a/b with the first file in a, each flag set given once as command-line flags (next to a decoy .editorconfig with conflicting settings when non-empty) and once as the equivalent single-section .editorconfig, each tree passed once as explicit file arguments and once as its directories: -l lists exactly D = {f considered : formatted(f) != f}, -d holds one diff per member of D which applied to f gives formatted(f), status 1 iff D or a parse error, parse errors only on stderr; -w rewrites exactly D and leaves nothing else; -l afterwards prints nothing; all four agree between flags and EditorConfig. Order: shebang lines with <=3 blanks, hetero quick pairs, rest of the shebang sweep, single, rest of hetero, tree. distinct = (D, parse-error set, skipped set) patterns per settings and invocation; per shebang (line length, shell, extension, body, considered, error)",
+		"Phase tree: all multisets of 1..%d kinds (listed in kind order, file i named f<i><ext>) x all placements in directories a/b with the first file in a, each flag set given once as command-line flags (next to a decoy .editorconfig with conflicting settings when non-empty) and once as the equivalent single-section .editorconfig, each tree passed once as explicit file arguments and once as its directories: -l lists exactly D = {f considered : formatted(f) != f}, -d holds one diff per member of D which applied to f gives formatted(f), status 1 iff D or a parse error, parse errors only on stderr; -w rewrites exactly D and leaves nothing else; -l afterwards prints nothing; all four agree between flags and EditorConfig. Order: shebang lines with <=3 blanks interleaved 2:1 with the hetero quick pairs, rest of the shebang sweep, single, rest of hetero, tree. distinct = (D, parse-error set, skipped set) patterns per settings and invocation; per shebang (line length, shell, extension, body, considered, error)",
 		kindNames, strings.Join(setNames, " "), c36MaxBlank, c36ShebangShells, c36NotShells, []string{c36Bodies[0].Name, c36Bodies[1].Name}, strings.Join(pairNames, " "), maxFiles)
 	c.Assumptions = []string{
 		"formatted(f) is what `shfmt <options> f` prints for the file alone in a directory (with the options as flags, or as a single-section .editorconfig)",
@@ -959,35 +959,56 @@ func c36(c *vc.Ctx) {
 	c.Count("shebang_cases", len(shebangCases))
 	c.Count("hetero_setting_pairs", len(heteroAll))
 	complete := vc.Run(c, func(emit func(c36Case)) {
-		emitShebang := func(keep func(c36ShebangCase) bool) {
+		shebang := func(keep func(c36ShebangCase) bool) []c36Case {
+			var out []c36Case
 			for _, sc := range shebangCases {
 				if keep(sc) {
 					sp := sc.Spell
-					emit(c36Case{Phase: "shebang", Spell: &sp, Ext: sc.Ext, Body: sc.Body})
+					out = append(out, c36Case{Phase: "shebang", Spell: &sp, Ext: sc.Ext, Body: sc.Body})
 				}
 			}
+			return out
 		}
-		emitHetero := func(files []c36File, pairs [][2][]string) {
+		hetero := func(files []c36File, pairs [][2][]string) []c36Case {
+			var out []c36Case
 			for _, p := range pairs {
 				for _, layout := range []string{"sections", "nested"} {
 					for _, walk := range []bool{false, true} {
-						emit(c36Case{Phase: "hetero", Files: files, Flags: p[0], FlagsB: p[1], Layout: layout, Walk: walk})
+						out = append(out, c36Case{Phase: "hetero", Files: files, Flags: p[0], FlagsB: p[1], Layout: layout, Walk: walk})
 					}
 				}
+			}
+			return out
+		}
+		emitHetero := func(files []c36File, pairs [][2][]string) {
+			for _, t := range hetero(files, pairs) {
+				emit(t)
 			}
 		}
 		// The new dimensions first, smallest part first: every case costs
 		// several processes and the tiers usually end at the time budget.
-		// 1. shebang spellings with at most 3 blanks after "#!" (lines of 9..25 bytes)
-		short := func(sc c36ShebangCase) bool { return len(sc.Spell.Blank) <= 3 }
-		emitShebang(short)
+		// 1. shebang spellings with at most 3 blanks after "#!" (lines of
+		// 9..25 bytes), interleaved two to one with
 		// 2. the four-file tree with both settings-sensitive kinds in both
 		// directories x the quick pairs of per-directory settings
+		short := func(sc c36ShebangCase) bool { return len(sc.Spell.Blank) <= 3 }
 		tab, bashism := kindIndex["tab"], kindIndex["bashism"]
 		four := []c36File{{tab, "a"}, {bashism, "a"}, {tab, "b"}, {bashism, "b"}}
-		emitHetero(four, heteroQuick)
+		sh, he := shebang(short), hetero(four, heteroQuick)
+		for len(sh) > 0 || len(he) > 0 {
+			for i := 0; i < 2 && len(sh) > 0; i++ {
+				emit(sh[0])
+				sh = sh[1:]
+			}
+			if len(he) > 0 {
+				emit(he[0])
+				he = he[1:]
+			}
+		}
 		// 3. the rest of the shebang sweep
-		emitShebang(func(sc c36ShebangCase) bool { return !short(sc) })
+		for _, t := range shebang(func(sc c36ShebangCase) bool { return !short(sc) }) {
+			emit(t)
+		}
 		for _, set := range sets {
 			for k := range c36Kinds {
 				emit(c36Case{Phase: "single", Kind: k, Flags: set})
